@@ -46,6 +46,35 @@
 #include "scpi/constants.h"
 #include "scpi/utils.h"
 
+#ifdef SCPI_PARSER_VERIF
+/* Verification hook: under AddressSanitizer the unused tail of the input buffer
+ * (everything after the terminating NUL) is poisoned, so that a read of stale
+ * bytes beyond the logical end of input traps instead of silently succeeding. */
+#if defined(__SANITIZE_ADDRESS__)
+#define SCPI_VERIF_ASAN 1
+#elif defined(__has_feature)
+#if __has_feature(address_sanitizer)
+#define SCPI_VERIF_ASAN 1
+#endif
+#endif
+#ifdef SCPI_VERIF_ASAN
+void __asan_poison_memory_region(void const volatile *addr, size_t size);
+void __asan_unpoison_memory_region(void const volatile *addr, size_t size);
+#define SCPI_VERIF_UNPOISON(ctx) __asan_unpoison_memory_region((ctx)->buffer.data, (ctx)->buffer.length)
+#define SCPI_VERIF_POISON_FROM(ctx, from) do { \
+        if ((from) < (ctx)->buffer.length) { \
+            __asan_poison_memory_region((ctx)->buffer.data + (from), (ctx)->buffer.length - (from)); \
+        } \
+    } while (0)
+#define SCPI_VERIF_POISON_TAIL(ctx) SCPI_VERIF_POISON_FROM((ctx), (ctx)->buffer.position + 1)
+#endif
+#endif
+#ifndef SCPI_VERIF_UNPOISON
+#define SCPI_VERIF_UNPOISON(ctx)
+#define SCPI_VERIF_POISON_FROM(ctx, from)
+#define SCPI_VERIF_POISON_TAIL(ctx)
+#endif
+
 /**
  * Write data to SCPI output
  * @param context
@@ -320,8 +349,10 @@ scpi_bool_t SCPI_Input(scpi_t * context, const char * data, int len) {
 
     if (len == 0) {
         context->buffer.data[context->buffer.position] = 0;
+        SCPI_VERIF_POISON_TAIL(context);
         result = SCPI_Parse(context, context->buffer.data, context->buffer.position);
         context->buffer.position = 0;
+        SCPI_VERIF_UNPOISON(context);
     } else {
         int buffer_free;
 
@@ -329,13 +360,16 @@ scpi_bool_t SCPI_Input(scpi_t * context, const char * data, int len) {
         if (len > (buffer_free - 1)) {
             /* Input buffer overrun - invalidate buffer */
             context->buffer.position = 0;
+            SCPI_VERIF_UNPOISON(context);
             context->buffer.data[context->buffer.position] = 0;
             SCPI_ErrorPush(context, SCPI_ERROR_INPUT_BUFFER_OVERRUN);
             return FALSE;
         }
+        SCPI_VERIF_UNPOISON(context);
         memcpy(&context->buffer.data[context->buffer.position], data, len);
         context->buffer.position += len;
         context->buffer.data[context->buffer.position] = 0;
+        SCPI_VERIF_POISON_TAIL(context);
 
 
         while (1) {
@@ -347,12 +381,16 @@ scpi_bool_t SCPI_Input(scpi_t * context, const char * data, int len) {
                 memmove(context->buffer.data, context->buffer.data + totcmdlen, context->buffer.position - totcmdlen);
                 context->buffer.position -= totcmdlen;
                 totcmdlen = 0;
+                /* the remainder is not NUL terminated here: everything from its end on is stale */
+                SCPI_VERIF_UNPOISON(context);
+                SCPI_VERIF_POISON_FROM(context, context->buffer.position);
             } else {
                 if (context->parser_state.programHeader.type == SCPI_TOKEN_UNKNOWN
                         && context->parser_state.termination == SCPI_MESSAGE_TERMINATION_NONE) break;
                 if (totcmdlen >= context->buffer.position) break;
             }
         }
+        SCPI_VERIF_UNPOISON(context);
     }
 
     return result;
